@@ -245,7 +245,7 @@ struct Tgt {
 	bool open = false, enabled = false, thr = false;
 	int pos = -1, gen = 0, maxlen = QB_LOG_MAX_LEN;
 	uint32_t route_epoch = 0;
-	int in_cb = 0; int cb_task = -1;
+	int in_cb_w = 0, in_cb_s = 0;     // logger callback of this target in progress on the worker / on a logging task
 	uint32_t last_worker[NP] = {}, last_sync[NP] = {};
 	std::vector<uint32_t> must;      // indices of messages this target still has to receive
 	int nclose_cb = 0;
@@ -254,7 +254,7 @@ struct St {
 	const RunSpec *spec = NULL;
 	Abs a;
 	int av = 0;
-	int nprod = 0, cb_yields = 0; bool use_format = false, serial_log = false;
+	int nprod = 0, cb_yields = 0, cb_sleep_us = 0; bool use_format = false, serial_log = false;
 	Tgt T[NT];
 	int pos2t[NSLOT];
 	std::vector<Msg> msgs;
@@ -399,7 +399,7 @@ static void logger_cb(int32_t pos, struct qb_log_callsite *cs, struct timespec *
 	const char *text = msg;
 	char *fbuf = NULL;
 	// from here on the logger of this target is busy (qb_log_target_format below takes the format lock: a scheduling point)
-	if (t >= 0) { G.T[t].in_cb++; G.T[t].cb_task = me; }
+	if (t >= 0) { if (via_worker) G.T[t].in_cb_w++; else G.T[t].in_cb_s++; }
 	if (G.use_format && t >= 0) {
 		fbuf = (char *)malloc(2 * QB_LOG_ABSOLUTE_MAX_LEN + 512);
 		fbuf[0] = 0;
@@ -481,7 +481,12 @@ order_check:
 	}
 	// a slow logger: the control task may run while the worker is inside the callback (holding its lock)
 	for (int i = 0; i < G.cb_yields; i++) yield(Y_OP, 7000 + (uint32_t)i);
-	T.in_cb--;
+	if (via_worker && G.cb_sleep_us > 0) {
+		// slow device: the worker sleeps inside the callback, so every other task gets to run while it holds its lock
+		struct timespec sl = { 0, (long)G.cb_sleep_us * 1000 };
+		simk_nanosleep(&sl, NULL);
+	}
+	if (via_worker) T.in_cb_w--; else T.in_cb_s--;
 }
 
 static void close_cb(int32_t pos)
@@ -492,7 +497,7 @@ static void close_cb(int32_t pos)
 	if (t < 0) return;
 	Tgt &T = G.T[t];
 	T.nclose_cb++;
-	if (T.in_cb > 0)
+	if (T.in_cb_w > 0)
 		VFAIL("close-during-write", G.cur_op == K_CLOSE ? "qb_log_custom_close" : G.cur_op >= 0 ? op_names[G.cur_op] : "?",
 		      "the close callback of target %d (slot %d) ran while the logging thread was inside the logger callback of the same target", t, pos);
 }
@@ -649,13 +654,23 @@ static int32_t ctl_i32(int pos, enum qb_log_conf c, int32_t v)
 static void note_control_start(int t, bool pauses)
 {
 	bool busy = false;
-	for (int k = 0; k < NT; k++) if (G.T[k].in_cb > 0 && is_worker_task(G.T[k].cb_task)) busy = true;
+	for (int k = 0; k < NT; k++) if (G.T[k].in_cb_w > 0) busy = true;
 	if (busy) count(p_ctl_in_cb);
 	if (G.wphase == 2) count(p_lock_wait_app);
 	if (t >= 0 && pauses && G.a.slot_thr[G.T[t].pos]) {
 		if (G.a.lock_state() == 1) count(p_ctl_worker_locked);
 		else count(p_thr_nothread_ctl);
 	}
+}
+
+// a control call that pauses the logging thread (every qb_log_ctl except CONF_THREADED, on a target in threaded mode) returns
+// with the worker outside its critical section: no logger callback can be in progress on the worker at that moment
+static void check_pause_excluded(int t, const char *what)
+{
+	if (t < 0 || !G.a.slot_thr[G.T[t].pos] || G.a.lock_state() != 1) return;
+	for (int k = 0; k < NT; k++)
+		if (G.T[k].in_cb_w > 0)
+			VFAIL("control-call-overlapped-write", what, "%s on threaded target %d returned while the logging thread was inside the logger callback of target %d: the call did not wait for the worker", what, t, k);
 }
 
 static void do_fini()
@@ -768,6 +783,7 @@ static void app_op(const Op &op)
 		if (rc != 0) VFAIL("bad-return", "qb_log_ctl", "CONF_ENABLED(%d) returned %d", (int)on, rc);
 		if (!on && T.enabled && T.nclose_cb != before + 1)
 			VFAIL("bad-return", "qb_log_ctl", "disabling target %d invoked its close callback %d times", t, T.nclose_cb - before);
+		check_pause_excluded(t, "qb_log_ctl(CONF_ENABLED)");
 		T.enabled = on; G.a.T[t].enabled = on;
 		break; }
 	case K_CTL: {
@@ -790,6 +806,7 @@ static void app_op(const Op &op)
 		case 9: rc = ctl_i32(T.pos, QB_LOG_CONF_DEBUG, 1); want = -EINVAL; break;
 		}
 		if (rc != want) VFAIL("bad-return", "qb_log_ctl", "qb_log_ctl variant %d on target %d returned %d, expected %d", which, t, rc, want);
+		check_pause_excluded(t, "qb_log_ctl");
 		break; }
 	case K_THREAD_START: {
 		note_control_start(-1, false);
@@ -847,12 +864,17 @@ static void app_op(const Op &op)
 		Tgt &T = G.T[t];
 		bool busy_risk = T.enabled && G.a.slot_thr[T.pos] && G.a.lock_state() == 1;
 		if (busy_risk && pending_must(t)) count(p_close_busy);
-		if (busy_risk && (G.av & AV_E)) {
-			// avoid rule: disable first (that call waits for the worker), then close
-			demote(t, true);
-			int32_t rc = ctl_i32(T.pos, QB_LOG_CONF_ENABLED, QB_FALSE);
-			if (rc != 0) VFAIL("bad-return", "qb_log_ctl", "CONF_ENABLED(0) returned %d", rc);
-			T.enabled = false; G.a.T[t].enabled = false;
+		if ((G.av & AV_E) && G.a.lock_state() == 1) {
+			// avoid rule: never close a target the worker may be writing to. Disabling a threaded target waits for the worker;
+			// a target taken out of threaded mode a moment ago may still be inside its last write: wait for that to end
+			if (busy_risk) {
+				demote(t, true);
+				int32_t rc = ctl_i32(T.pos, QB_LOG_CONF_ENABLED, QB_FALSE);
+				if (rc != 0) VFAIL("bad-return", "qb_log_ctl", "CONF_ENABLED(0) returned %d", rc);
+				T.enabled = false; G.a.T[t].enabled = false;
+			}
+			struct W { static bool idle(void *a) { Tgt *x = (Tgt *)a; return x->in_cb_w == 0; } };
+			while (!W::idle(&T)) block_until(W::idle, &T, -1, 952);
 		}
 		note_control_start(t, false);
 		demote(t, true);
@@ -983,6 +1005,7 @@ static void gen(const char *, RunSpec &spec)
 	p.set("nprod", g.nprod);
 	p.set("cb_yields", r.chance(1, 2) ? 0 : r.range(1, 3));
 	p.set("use_format", r.chance(1, 2));
+	p.set("cb_sleep_us", r.chance(1, 2) ? 0 : r.range(1, 200));
 	p.set("rate_eintr", r.chance(1, 3) ? r.range(500, 6000) : 0);
 	p.set("avoid", g.av);
 	p.set("stall_pick", r.below(4));
@@ -1095,6 +1118,8 @@ static void run_body(const RunSpec &spec)
 	v = p.get("cb_yields", 0);
 	G.cb_yields = v < 0 ? 0 : v > 8 ? 8 : (int)v;
 	G.use_format = p.get("use_format", 0) != 0;
+	v = p.get("cb_sleep_us", 0);
+	G.cb_sleep_us = v < 0 ? 0 : v > 100000 ? 100000 : (int)v;
 	G.av = (int)p.get("avoid", 0);
 	G.serial_log = (G.av & AV_D) != 0;
 	for (int i = 0; i < NSLOT; i++) G.pos2t[i] = -1;
